@@ -892,9 +892,16 @@ class Py2Cpp(ITranspiler):
 		if prop in ['__module__', '__name__', '__qualname__']:
 			return True
 		elif not node.receiver.is_a(defs.ThisRef) and prop in ['name', 'value'] and isinstance(receiver_symbol.types, defs.Enum):
-			return True
+			# XXX リテラル化できるのは列挙型のメンバーを直接参照している場合(Enum.X.value)のみ。列挙型の変数は実行時の値に依存するため対象外
+			return self.is_enum_member_ref(node.receiver)
 		else:
 			return False
+
+	def is_enum_member_ref(self, receiver: Node) -> bool:
+		if not isinstance(receiver, defs.Relay):
+			return False
+
+		return self.reflections.type_of(receiver.receiver).impl(refs.Object).type_is(type)
 
 	def is_relay_this(self, node: defs.Relay) -> bool:
 		return node.receiver.is_a(defs.ThisRef)
